@@ -334,11 +334,12 @@ impl std::str::FromStr for Deb822 {
                         }
                     }
 
-                    // Trim the trailing newline
-                    assert_eq!(
-                        current_paragraph.last_mut().unwrap().value.pop(),
-                        Some('\n')
-                    );
+                    // Trim the trailing newline (absent when the input ends
+                    // in a continuation line without a final newline)
+                    let value = &mut current_paragraph.last_mut().unwrap().value;
+                    if value.ends_with(['\n', '\r']) {
+                        value.pop();
+                    }
                 }
                 SyntaxKind::VALUE => {
                     return Err(Error::UnexpectedToken(k, t.to_string()));
